@@ -87,7 +87,7 @@ Qed.
 
 Lemma versions_W x0 x1 x3 x4 :
   cstep_versions (W x0 x1 x3 x4) c =
-  match filter_range (minVersion c) (maxVersion c) x4 with Ok l => Ok (W x0 x1 x3 l) | Err e => Err e end.
+  match filter_range (clip_lo (minVersion c)) (maxVersion c) x4 with Ok l => Ok (W x0 x1 x3 l) | Err e => Err e end.
 Proof. reflexivity. Qed.
 
 (* decomposition of a successful run *)
@@ -95,7 +95,7 @@ Lemma cvalidate_V_inv x0 x1 x3 x4 v' :
   cvalidate T I (W x0 x1 x3 x4) c = Ok v' ->
   exists y4,
     cchecks_A T (W x0 x1 x3 x4) c = Ok tt /\
-    filter_range (minVersion c) (maxVersion c) x4 = Ok y4 /\
+    filter_range (clip_lo (minVersion c)) (maxVersion c) x4 = Ok y4 /\
     sanityCheckExtensions T (W x0 x1 x3 x4) c = Ok tt /\
     cchecks_C T (W x0 x1 x3 x4) c = Ok tt /\
     isnil (filter (impl_available I) x3) = false /\ isnil (filter (pcipher I) x0) = false /\
@@ -113,7 +113,7 @@ Proof.
     destruct (cchecks_C T (W x0 x1 x3 x4) c) as [[]|]; [|discriminate Ht].
     destruct (isnil (filter (impl_available I) x3)); [discriminate Ht|].
     destruct (isnil (filter (pcipher I) x0)); [discriminate Ht|]. injection Ht as <-. auto. }
-  destruct (filter_range (minVersion c) (maxVersion c) x4) as [l|e]; [|discriminate H].
+  destruct (filter_range (clip_lo (minVersion c)) (maxVersion c) x4) as [l|e]; [|discriminate H].
   exists l. split; [reflexivity|]. split; [reflexivity|]. apply K. exact H.
 Qed.
 End Facts.
